@@ -32,6 +32,7 @@ def _load():
     from flumine.simulation.utils import NewDateTime
     from flumine.streams.orderstream import OrderStream
     from flumine.streams.marketstream import MarketStream
+    from flumine.streams.datastream import DataStream
     from flumine.controls.tradingcontrols import ExecutionValidation
     import flumine.baseflumine as baseflumine_mod
 
@@ -1015,14 +1016,20 @@ class LiveRun:
                 self.res.faults["live.market_%s.while_request_in_flight" % upd["st"].lower()] += 1
         st = self.market_stream
         d = json.loads(line)
-        d["id"] = st.stream_id
-        st._listener.on_data(json.dumps(d))
-        try:
-            while True:
-                books = st._output_queue.get_nowait()
-                self.fw.handler_queue.put(_F["events"].MarketBookEvent(books))
-        except Exception:
-            pass
+        if st is not None and (st.market_filter or not self.data_streams):
+            d["id"] = st.stream_id
+            st._listener.on_data(json.dumps(d))
+            try:
+                while True:
+                    books = st._output_queue.get_nowait()
+                    self.fw.handler_queue.put(_F["events"].MarketBookEvent(books))
+            except Exception:
+                pass
+        for ds in self.data_streams:
+            # raw-data (recorder) streams: the real FlumineListener puts RawDataEvents on the handler queue itself
+            d2 = json.loads(line)
+            d2["id"] = ds.stream_id
+            ds._listener.on_data(json.dumps(d2))
         # scenario-defined custom events (C13): a callback that may raise
         self.n_mcm = getattr(self, "n_mcm", 0) + 1
         for ce in self.scenario.get("custom_events") or ():
@@ -1114,6 +1121,7 @@ class LiveRun:
                 self,
                 spec,
                 market_filter={} if ss.get("empty_filter") else {"marketIds": [m["id"] for m in sc["markets"]]},
+                stream_class=(F["DataStream"] if ss.get("data_stream") else F["MarketStream"]),
                 name=ss["name"],
                 max_order_exposure=ss.get("max_order_exposure", 1000),
                 max_selection_exposure=ss.get("max_selection_exposure", 10000),
@@ -1127,6 +1135,7 @@ class LiveRun:
         self.market_stream = None
         self.order_stream = None
         self.need_image = {m["id"]: True for m in sc["markets"]}
+        self.data_streams = []
         for s in fw.streams:
             if isinstance(s, F["OrderStream"]):
                 self.order_stream = s
@@ -1134,6 +1143,11 @@ class LiveRun:
                 s._stream.running = not cfg.get("order_stream_down", False)
                 self.order_stream_id = s.stream_id
                 s._listener.register_stream(s.stream_id, "orderSubscription")
+            elif isinstance(s, F["DataStream"]):
+                s._stream = StubStream()
+                s._listener.register_stream(s.stream_id, "marketSubscription")
+                if s.market_filter:
+                    self.data_streams.append(s)
             elif isinstance(s, F["MarketStream"]):
                 s._stream = StubStream()
                 s._listener.register_stream(s.stream_id, "marketSubscription")
